@@ -16,7 +16,7 @@ CLAIM = dict(
     text="conv1d/conv2d are executed over the quantifier's grid (batch 1..2, in-channels 1..4 x every divisor as groups, out-channels g..2g, spatial 1..7, kernel 1..3, stride 1..3, padding 0..2, dilation 1..2, bias on/off, positive output size; conv1d: sampled in quick, the full grid in thorough; conv2d: sampled, per-axis stride/padding/dilation pairs and the defaulted (None) call forms included), max/avg pool2d over kernel 1..3 x stride 1..3 x ceil mode on spatial 1..7 incl. overhanging last windows, softmax/softmin over every axis (+/-) of dim 1..4 inputs, batch/layer/instance/group norm over dim 2..4 inputs, linear/bilinear with and without bias, pairwise_distance (ord 1,2,4, keepdims) and cosine_similarity over every axis with broadcasting. Shape and every element read through view(i...) are compared with the model: exactly on integer-valued data where no division occurs, else |got-exp| <= rtol*(|exp|+max|exp|) with rtol 1e-5 (float) / 1e-12 (double). Held-on-observed.",
     note="Trusted: the nested-loop models in vf/c17_model.py (PyTorch conventions: zero padding, floor output size, ceil-mode rule that the last pooling window must start inside the input, avg over the in-bounds part of a window, biased variance). A model that disagrees with a shipped vector makes the run inconclusive, not a violation. Only batched inputs and the fully dynamic ndarray kind; element types int32/float/double for conv, pooling, linear, bilinear and float/double elsewhere.",
     ref="DESIGN.md 4/C17")
-HARNESS = ["c17_conv1d_a", "c17_conv1d_b", "c17_conv2d_a", "c17_conv2d_b", "c17_conv2d_c", "c17_pool", "c17_softmax",
+HARNESS = ["c17_conv1d_a", "c17_conv1d_b", "c17_conv2d_a", "c17_conv2d_b", "c17_conv2d_c", "c17_conv2d_ct", "c17_pool", "c17_softmax",
            "c17_batch_norm", "c17_layer_norm", "c17_instance_norm", "c17_group_norm", "c17_linear", "c17_bilinear",
            "c17_pairwise", "c17_cosine"]
 TARGETS_QUICK = [(h, "asan") for h in HARNESS]
@@ -160,6 +160,20 @@ def gen_cases(rng, tier):
                             s, p, d = [geo[0][2], geo[1][2]], [geo[0][3], geo[1][3]], [geo[0][4], geo[1][4]]
                             args = "f %s %s 0 %d %d %d %d %d %d 1" % (fmt_operand(xs, x), fmt_operand(ws, w), s[0], s[1], p[0], p[1], d[0], d[1])
                             cases.append(dict(op="nn_conv2d_list", args=args, dtype="f", xs=xs, x=x, ws=ws, w=w, b=None, stride=s, padding=p, dilation=d, groups=1, form="pairs"))
+    # ---- compile-time stride and dilation pairs (tuple{a_ct, b_ct}): every combination of {1,2}^2 x {1,2}^2, non-square kernels and inputs
+    for s in ([1, 1], [1, 2], [2, 1], [2, 2]):
+        for d in ([1, 1], [1, 2], [2, 1], [2, 2]):
+            for _ in range(3 if quick else 40):
+                kh, kw = rng.choice([(2, 3), (3, 2), (1, 3), (3, 1), (2, 2), (2, 1)])
+                H, W = rng.randint(3, 7), rng.randint(3, 7)
+                p = [rng.randint(0, 1), rng.randint(0, 1)]
+                if M.conv_out_size(H, kh, s[0], p[0], d[0]) <= 0 or M.conv_out_size(W, kw, s[1], p[1], d[1]) <= 0:
+                    continue
+                N, C, O = rng.randint(1, 2), rng.randint(1, 2), rng.randint(1, 2)
+                xs, ws = [N, C, H, W], [O, C, kh, kw]
+                x, w = ints(rng, size(xs)), ints(rng, size(ws))
+                args = "f %s %s 0 %d %d %d %d %d %d 1" % (fmt_operand(xs, x), fmt_operand(ws, w), s[0], s[1], p[0], p[1], d[0], d[1])
+                cases.append(dict(op="nn_conv2d_ct", args=args, dtype="f", xs=xs, x=x, ws=ws, w=w, b=None, stride=list(s), padding=p, dilation=list(d), groups=1, form="ct_pairs"))
     n2 = 0
     want = 350 if quick else 10000
     while n2 < want:
@@ -362,7 +376,7 @@ def gen_cases(rng, tier):
 
 
 # ---------------------------------------------------------------- reference
-EXACT_OPS = ("nn_conv1d", "nn_conv1d_form", "nn_conv2d", "nn_conv2d_list", "nn_conv2d_form", "nn_max_pool2d", "nn_linear", "nn_bilinear")
+EXACT_OPS = ("nn_conv1d", "nn_conv1d_form", "nn_conv2d", "nn_conv2d_list", "nn_conv2d_ct", "nn_conv2d_form", "nn_max_pool2d", "nn_linear", "nn_bilinear")
 
 
 def expected(m, fast=True):
